@@ -20,6 +20,8 @@ if "--report-only" not in sys.argv:
 acc = json.load(open(out))
 tot = hit = 0
 for fn in sorted(acc):
+    if fn.startswith("BR:"):
+        continue
     lines = acc[fn]
     miss = sorted(int(k) for k, v in lines.items() if v == 0)
     tot += len(lines); hit += len(lines) - len(miss)
@@ -32,3 +34,17 @@ for fn in sorted(acc):
         for m in miss:
             print("   %5d: %s" % (m, src[m - 1].strip()[:140] if m <= len(src) else ""))
 print("TOTAL %d/%d" % (hit, tot))
+if "--branches" in sys.argv:
+    for fn in sorted(acc):
+        if not fn.startswith("BR:"):
+            continue
+        try:
+            src = open(os.path.join("/repo", fn[3:]), errors="replace").read().splitlines()
+        except FileNotFoundError:
+            src = []
+        lines = acc[fn[3:]]
+        half = [(int(k), v) for k, v in acc[fn].items() if lines.get(k, 0) > 0 and any(x == 0 for x in v) and any(x > 0 for x in v)]
+        if half:
+            print("== %s: %d reached lines with a branch outcome never taken" % (fn[3:], len(half)))
+            for k, v in sorted(half):
+                print("   %5d %s: %s" % (k, v, src[k - 1].strip()[:120] if k <= len(src) else ""))
